@@ -907,6 +907,19 @@ func (g *bridgeGen) plan(mode string) (*BlockPlan, error) {
 			}
 		}
 	}
+	// sometimes the last two or three messages travel in ONE transaction: if a later one fails, what the earlier ones did
+	// (voted hashes, a new key, credited deposits, withdrawal status changes) is undone
+	if n := len(plan.Txs); n >= 2 && rare(4) {
+		k := 2
+		if n >= 3 && rare(2) {
+			k = 3
+		}
+		prop := s.member(vc.Proposer)
+		_, accSeq, _ := c.Account(prop.Addr)
+		if m, err := s.MergeTxs(prop.Priv, plan.Txs[n-k:], accSeq+uint64(n-k)); err == nil {
+			plan.Txs = append(plan.Txs[:n-k:n-k], m)
+		}
+	}
 	return plan, nil
 }
 
